@@ -68,6 +68,38 @@ def col_atom(pit, rowkey, mod, name):
     return Poly.sym("col", pit, rowkey, mod.rsplit(".", 1)[1], name)
 
 
+# role of every output of the solver kernels by *position* (the callers unpack positionally); local variable names in the
+# kernels are free to change
+KERNEL_OUTPUT_ROLES = {
+    "derivatives_hydraulic_incomp": ["load_vec", "load_vec_nodes_from", "load_vec_nodes_to", "df_dm", "df_dm_nodes", "df_dp", "df_dp1",
+                                     "dp_frict_loss"],
+    "derivatives_hydraulic_comp": ["load_vec", "load_vec_nodes_from", "load_vec_nodes_to", "df_dm", "df_dm_nodes", "df_dp", "df_dp1",
+                                   "dp_frict_loss"],
+    "derivatives_thermal": ["fn", "dfn_dt", "fnt", "dfnt_dt", "dfnt_dtout", "fb", "dfb_dt", "dfb_dtout", "infeed"],
+    "calc_lambda_nikuradse_incomp": ["re", "lambda_laminar", "lambda_nikuradse"],
+    "calc_lambda_nikuradse_comp": ["re", "lambda_laminar", "lambda_nikuradse"],
+    "calc_medium_pressure_with_derivative": ["p_m", "der_p_m", "der_p_m1"],
+    "calc_derived_values": ["tinit_branch", "height_difference", "p_init_i_abs", "p_init_i1_abs"],
+    "get_branch_results_gas": ["v_gas_from", "v_gas_to", "v_gas_mean", "p_abs_from", "p_abs_to", "p_abs_mean", "normfactor_from",
+                               "normfactor_to", "normfactor_mean"],
+    "get_pressures": ["p_abs_from", "p_abs_to", "p_abs_mean"],
+    "get_gas_vel": ["v_gas_from", "v_gas_to", "v_gas_mean", "normfactor_from", "normfactor_to", "normfactor_mean"],
+}
+
+
+def _role_names(fname, names):
+    base = fname
+    for suf in ("_numba", "_np", "_nb"):
+        if base.endswith(suf):
+            base = base[:-len(suf)]
+    roles = KERNEL_OUTPUT_ROLES.get(base)
+    if roles is None:
+        return names
+    if len(roles) != len(names):
+        raise Unsupported("kernel %s returns %d values, the role table knows %d" % (fname, len(names), len(roles)))
+    return list(roles)
+
+
 class Kernel:
     def __init__(self, fi):
         self.fi = fi
@@ -236,6 +268,7 @@ class KInterp:
                 vals, names = list(v), [U(s.value) + "[%d]" % i for i in range(len(v))]
             else:
                 vals, names = [v], [U(s.value)]
+        names = _role_names(st["fi"].name, names)
         if st.get("early_cond") is not None:
             k.early.append((st["early_cond"], vals, names))
             return
@@ -1366,6 +1399,11 @@ class KInterp:
             name = f
             if isinstance(e.func, ast.Attribute) and not isinstance(e.func.value, ast.Name):
                 name = "<expr>." + short
+            elif isinstance(e.func, ast.Attribute) and isinstance(e.func.value, ast.Name):
+                # a method of the fluid object is named after the object, not after the local variable that holds it
+                bv = st["env"].get(e.func.value.id)
+                if isinstance(bv, GExpr) and bv.plain() is not None and bv.plain() == Poly.sym("fluid"):
+                    name = "fluid." + short
             combos = [(TRUE_G, [])]
             for pg in parts:
                 nxt = []
